@@ -179,7 +179,8 @@ package csync
 //@   requires ctx != nil
 //@   ghost init status: rmx(status) := m
 //@   ghost init status: rmode(status) := ite(write, 2, 1)
-//@   ensures held: result1 == nil ==> aint(status) == 1 && rgrant(status) == m && result0 != nil
+//@   ensures held: result1 == nil ==> aint(status) == 1 && rgrant(status) == m
+//@   ensures fn: result1 == nil ==> result0 != nil
 //@   ensures failed: result1 != nil ==> result1 == context.Canceled && cancelled(ctx) && !written(m.nreaders) && !written(m.writing) && rgrant(status) == nil
 //@   loop 1 invariant waiting: aint(status) == 0 && !written(m.nreaders) && !written(m.writing) && rmx(status) == m && rmode(status) == ite(write, 2, 1) && rreg(status)
 //@   loop 1 invariant parked: waitCh != nil && issuedBy(waitCh) == m.bcast && gettime(waitCh) == lastcs()
@@ -229,3 +230,53 @@ package csync
 //@   ghost exit: m.waiters := ite(pre == 0 && write, del(m.waiters, status), m.waiters)
 //@   ghost exit: rrelG(status) := ite(rrelG(status) == me, nil, rrelG(status))
 //@   ghost exit: rrelW(status) := ite(rrelW(status) == me, nil, rrelW(status))
+//
+//@ func (*RWMutex).TryLock
+//@   props C01 C02
+//@   opt frame = skip
+//@   ensures ok: result1 ==> !abool(unlocked) && rgrant(unlocked) == m
+//@   ensures fn: result1 ==> result0 != nil
+//@   ensures fail: !result1 ==> !written(m.nreaders) && !written(m.writing) && !written(m.writeWaiting)
+//
+//@ closure (*RWMutex).TryLock$1
+//@   props C01 C02
+//@   ghost exit: rmxt(unlocked) := ite(abool(unlocked), rmxt(unlocked), m)
+//@   ghost exit: rmode(unlocked) := ite(abool(unlocked), rmode(unlocked), ite(write, 2, 1))
+//@   ghost exit: rgrant(unlocked) := ite(abool(unlocked), rgrant(unlocked), m)
+//@   ghost exit: m.wowner := ite(!abool(unlocked) && write, unlocked, m.wowner)
+//@   ghost exit: m.readers := ite(!abool(unlocked) && !write, add(m.readers, unlocked), m.readers)
+//
+//@ func (*RWMutex).TryLock$2
+//@   props C01 C02
+//@   opt frame = skip
+//@   captured rmxt(unlocked) == m && rmode(unlocked) == ite(write, 2, 1) && m != nil && unlocked != nil
+//@   ghost atomic 1: rrelG(unlocked) := ite(ret, rrelG(unlocked), me)
+//
+//@ closure (*RWMutex).TryLock$2$1
+//@   props C01 C02
+//@   assert entry: rgrant(unlocked) == m && rrelG(unlocked) == me
+//@   assert entry: !write ==> m.readers[unlocked]
+//@   assert entry: !write ==> card(m.readers) >= 1
+//@   assert entry: !write ==> m.nreaders >= 1 && !m.writing
+//@   assert entry: write ==> m.wowner == unlocked && m.writing && m.nreaders == 0
+//@   ghost exit: rgrant(unlocked) := nil
+//@   ghost exit: m.wowner := ite(write, nil, m.wowner)
+//@   ghost exit: m.readers := ite(write, m.readers, del(m.readers, unlocked))
+//@   ghost exit: rrelG(unlocked) := ite(rrelG(unlocked) == me, nil, rrelG(unlocked))
+//
+// RWMutexLocker: mtx guards the stack of release functions.
+//
+//@ object RWMutexLocker
+//@   props C01 C13
+//@   lock mtx
+//@   guarded rels
+//@   immutable m, write
+//@   inv L1: forall k: int {elemat(this.rels, k)} :: off(this.rels) <= k && k < off(this.rels) + len(this.rels) ==> elemat(this.rels, k) != nil
+//
+//@ func (*RWMutexLocker).Lock
+//@   props C01 C13
+//@   opt frame = skip
+//
+//@ func (*RWMutexLocker).Unlock
+//@   props C01 C13
+//@   opt frame = skip
